@@ -210,6 +210,22 @@ Theorem C14_fork_isolation_iff :
 Proof. exact fork_isolation_iff. Qed.
 Print Assumptions C14_fork_isolation_iff.
 
+(* the in-place premise, tied to the source: for every arm of hevm_cheat_code.handle in the
+   regenerated table (selector constant, attribute of ex.block, uint160?) and all worlds and
+   words, the model's cheat for that selector sets exactly that attribute and nothing else;
+   all six block-setting selectors are in the table *)
+Theorem C14_block_handlers :
+  (forall sel f trunc, In (sel, f, trunc) block_handlers -> forall w x,
+     exists c w' i,
+       cheat_of_selector sel x = Some c /\ do_cheat w c = SDone w' None /\ field_index f = Some i /\
+       blk_list w' = ForkModel.upd (blk_list w) i (if trunc then u160 x else x) /\
+       mw_balance w' = mw_balance w /\ mw_storage w' = mw_storage w /\ mw_code w' = mw_code w) /\
+  forallb (fun s => existsb (fun e => N.eqb (fst (fst e)) s) block_handlers)
+          [fee_sig; chainid_sig; coinbase_sig; difficulty_sig; roll_sig; warp_sig] = true /\
+  List.length block_handlers = 6%nat.
+Proof. exact (conj block_handlers_in_place block_handlers_cover). Qed.
+Print Assumptions C14_block_handlers.
+
 Example C14_fork_nonvacuous :
   (* vm.warp(100); vm.store(1,5,7); if (c) { if (d) { timestamp } else { vm.roll(4); number } ; sload }
      else { vm.warp(300); vm.store(1,5,9); vm.etch(2, ..) ; timestamp } *)
